@@ -41,6 +41,7 @@ func init() {
 type bceReport struct {
 	file string
 	line int
+	col  int
 	kind string
 }
 
@@ -100,7 +101,8 @@ func compilerBCE(dir, pkg string, overlay map[string][]byte) ([]bceReport, error
 					}
 				}
 			}
-			reps = append(reps, bceReport{f, n, m[4]})
+			col, _ := strconv.Atoi(m[3])
+			reps = append(reps, bceReport{f, n, col, m[4]})
 		} else if !strings.HasPrefix(line, "#") && strings.TrimSpace(line) != "" {
 			sawOther = line
 		}
